@@ -160,7 +160,7 @@ JudgeMutate(c, names, rows, err) ==
 AggRows == {<<k, v>> : k \in {99, 1, 2}, v \in {99, -1, 2}}
 AggSeqs == UNION {[1..m -> AggRows] : m \in 0..AMaxLen}
 AggConfigs == {[verb |-> "agg", rows |-> rs, op |-> o, mode |-> md] :
-                  rs \in AggSeqs, o \in {"sum", "min", "max", "mean", "count", "len"}, md \in {"grouped", "ungrouped", "window"}}
+                  rs \in AggSeqs, o \in {"sum", "min", "max", "mean", "count", "len"}, md \in {"grouped", "ungrouped", "window", "constgroup"}}
 
 RECURSIVE SumSeq(_)
 SumSeq(s) == IF s = <<>> THEN 0 ELSE Head(s) + SumSeq(Tail(s))
@@ -192,7 +192,10 @@ JudgeAgg(c, out, err) ==
     LET n == Len(c.rows)
         G(k) == {i \in 1..n : c.rows[i][1] = k}
         keys == {c.rows[i][1] : i \in 1..n}
-    IN CASE c.mode = "ungrouped" ->      \* one row, also for an empty table
+    IN CASE c.mode = "constgroup" ->     \* grouped by a constant column: one group - and NO row for an empty table
+              IF n = 0 THEN (IF out = <<>> THEN "ok" ELSE "groups")
+              ELSE IF Len(out) # 1 THEN "groups" ELSE IF SameAgg(c, out[1][2], AggOf(c, 1..n)) THEN "ok" ELSE "values"
+         [] c.mode = "ungrouped" ->      \* one row, also for an empty table
               IF Len(out) # 1 THEN "row-count" ELSE IF SameAgg(c, out[1][2], AggOf(c, 1..n)) THEN "ok" ELSE "values"
          [] c.mode = "grouped" ->        \* out: <<key, value>> per group
               IF Len(out) # Cardinality(keys) \/ {out[i][1] : i \in DOMAIN out} # keys THEN "groups"
